@@ -995,5 +995,11 @@ func (x *Exec) entryObjFact(st *State, o *Term) {
 	}
 	if t.Op == "const" && strings.HasSuffix(t.Name, "@0") && o.Op == "select" && !o.bound {
 		st.assumeBound(x, o, new(big.Int), nil)
+		return
+	}
+	if o.Op == "select" && !o.bound {
+		// a reference found in memory denotes an object that exists now: it is none of the ids
+		// handed out by later allocations (path fact only; the term may be read again elsewhere)
+		st.assume(x.b.mk("<=", SBool, "", nil, x.b.Int(*st.nextObj), o))
 	}
 }
